@@ -2,7 +2,7 @@
     swaps Rc for Arc" and the four builds are decided by running them; the
     conversion clause is a theorem).  Statements only. *)
 From Coq Require Import Floats.SpecFloat.
-From JP Require Import Base F64 Value Serde Proofs.SerdeProof.
+From JP Require Import Base F64 Value Serde Run Proofs.SerdeProof Proofs.FeatureProof.
 
 (** The specialised fast-path conversions of lib.rs:190-357 produce the same
     value as the generic serde path, for every JSON-representable input of the
@@ -11,6 +11,13 @@ From JP Require Import Base F64 Value Serde Proofs.SerdeProof.
 Theorem C17_conversions_agree : forall i, json_representable i = true -> conv_special i = conv_generic i.
 Proof. exact conv_agree. Qed.
 Print Assumptions C17_conversions_agree.
+
+(** Searching a typed input gives the same outcome (value, or error, or refusal of the input) in a build with the
+    [specialized] feature as in one without: for every expression text and every JSON-representable input. *)
+Theorem C17_search_outcome_feature_independent : forall text i, json_representable i = true ->
+  search_input true text i = search_input false text i.
+Proof. exact search_input_feature_independent. Qed.
+Print Assumptions C17_search_outcome_feature_independent.
 
 (** Recorded deviation outside the quantifier (non-finite floats are not JSON-representable). *)
 Theorem C17_non_finite_refuted : conv_special (IF64 S754_nan) = SErr /\ conv_generic (IF64 S754_nan) = SOk VNull.
